@@ -140,3 +140,12 @@ def shrink(case):
             rest = parts[:j] + parts[j + k:]
             if rest:
                 yield " ".join(t[:-1] + ["+".join(rest)])
+
+
+def pre_proof():
+    """The concrete instance (Model/ConnInst.v) uses the error->response table that the C20 translator
+    regenerates from the CURRENT source tree; regenerate it before building, so that a run against
+    another tree (VERIF_REPO) never leaves a stale table behind."""
+    import c20 as _c20
+    _c20.pre_proof()
+    return []
